@@ -696,7 +696,14 @@ impl TextResource {
                     None
                 }
             })),
-            PositionMode::Both => Box::new(self.positionindex.keys()),
+            //(milestones live in the same index with both lists empty: they are no positions in use)
+            PositionMode::Both => Box::new(self.positionindex.iter().filter_map(|(k, positem)| {
+                if !positem.begin2end.is_empty() || !positem.end2begin.is_empty() {
+                    Some(k)
+                } else {
+                    None
+                }
+            })),
         }
     }
 
@@ -737,7 +744,13 @@ impl TextResource {
                 self.positionindex
                     .0
                     .range((Included(&begin), Excluded(&end)))
-                    .map(|(k, _)| k),
+                    .filter_map(|(k, positem)| {
+                        if !positem.begin2end.is_empty() || !positem.end2begin.is_empty() {
+                            Some(k)
+                        } else {
+                            None
+                        }
+                    }),
             ),
         }
     }
@@ -745,7 +758,11 @@ impl TextResource {
     /// Lookup a position (unicode point) in the PositionIndex. Low-level function.
     /// Only works for positions at which a TextSelection starts or ends (non-inclusive), returns None otherwise
     pub fn position(&self, index: usize) -> Option<&PositionIndexItem> {
-        self.positionindex.0.get(&index)
+        //(a milestone is an entry without text selections: no position in use)
+        self.positionindex
+            .0
+            .get(&index)
+            .filter(|positem| !positem.begin2end.is_empty() || !positem.end2begin.is_empty())
     }
 
     /// Returns the number of positions in the positionindex
